@@ -108,6 +108,7 @@ func c05CheckPayload(c *core.Ctx, data []byte, how string) {
 		c.Violationf("C05:payload-length-json", "%s: payload-length after JSON round trip differs", how)
 	}
 	c.Count("payloads", 1)
+	c.Count("executions", 1)
 }
 
 func trunc(s string, n int) string {
@@ -250,6 +251,7 @@ func runC05(c *core.Ctx) {
 				c.Violationf("C05:addr-json", "%s: %v", ac.name, err)
 			}
 			c.Count("addresses", 1)
+			c.Count("executions", 1)
 			c.Outcome("addr", ac.name)
 		}
 		c.Sample(map[string]interface{}{"part": "addr", "addr": "udp [2001:db8::1]:65535", "event": event.ToMap(event.New(event.SourceAddr(&net.UDPAddr{IP: net.ParseIP("2001:db8::1"), Port: 65535})))["source-ip"]})
@@ -293,6 +295,7 @@ func runC05(c *core.Ctx) {
 				c.Violationf("C05:options-apply", "event.Apply(%s): %s", strings.Join(names, ", "), d)
 			}
 			c.Count("option_tuples", 1)
+			c.Count("executions", 1)
 			c.Outcome("opts", strings.Join(names, ","))
 		}
 		if len(prefix) == depth {
@@ -351,6 +354,7 @@ func runC05(c *core.Ctx) {
 							c.Violationf("C05:"+mode+"-json", "%s pre=%03b data=%03b val#%d: %v", mode, pre, dm, vi, err)
 						}
 						c.Count("merges", 1)
+						c.Count("executions", 1)
 						c.Outcome(mode, fmt.Sprint(pre, dm, vi))
 					}
 				}
